@@ -373,6 +373,11 @@ func streamAlias(seed uint64, n int) (*Summary, error) {
 			sum.Hist["same_order_pairs"]++
 		}
 	}
+	// the enum slices handed to OneOf are shared by all schemas of the process and have spare capacity: an
+	// execution that appends to one writes into memory it was only lent
+	if w := eng.EnumsIntact(); w != "" {
+		sum.addViolation("C19", Mismatch{Case: "every case of this stream (enum slices are shared by content, with spare capacity)", What: "an execution wrote into the enum slice given to OneOf: " + w})
+	}
 	return sum, nil
 }
 
